@@ -176,7 +176,11 @@ package twig
 //@   flag errretry (*Engine).Load
 // `ignore missing` turns a template that does not exist into empty output; every other failure
 // is reported
-//@ func (*IncludeNode).Render props: C17
+//@ func (*IncludeNode).Render props: C17 C11
+//@   flag rely_tree yes
+//@   atcall Node.Render a2 != ctx && freshRef(a2)
+//@   atcall (*RenderContext).SetVariable a0 != ctx && freshRef(a0)
+//@   atcall (*RenderContext).EvaluateExpression a0 == ctx
 //@   flag errretry (*Engine).Load
 //@   flag errtolerate n.ignoreMissing && errIs(pendErr, ErrTemplateNotFound) && ret == nil
 // Load: a loader that does not have the name is skipped (the first that has it wins) and a
@@ -542,3 +546,7 @@ package twig
 //@   atcall Node.Render a2 == macroCtx
 //@   atcall renderVariableString a1 == macroCtx
 //@   loop 2 invariant[C12] macroCtx.parent == ctx && macroCtx != ctx
+
+// ---------------------------------------------------------------- include (C11)
+// The included template is rendered in a context of its own (never the includer's), `with` values
+// are evaluated in the includer's context and bound in the included template's context only.
